@@ -57,9 +57,50 @@ def c12_cache(tier, rng):
                                                                             "other_record": other_rec},
                              "observed": "find_converted_db -> %r, compare_stored_gtf -> %r" % (got, got2),
                              "required": "%r / %r" % (expect, expect2)})
+        # one level up: convert_db (the function a run calls) with the conversion itself replaced by a stub that records whether it ran.
+        # A database made with --complete_genedb lacks the records a run WITHOUT the flag would infer (and vice versa), so a cached
+        # database may be reused only for the same flag, and never under --clean_start.
+        import json, types
+        real_gtf2db = g2d.gtf2db
+        try:
+            for recorded, requested, clean in itertools.product([None, True, False], [True, False], [False, True]):
+                obl += 1
+                gtf = os.path.join(d, "b.gtf"); olddb = os.path.join(d, "old.db"); newdb = os.path.join(d, "new.db"); cfg = os.path.join(d, "cfg.json")
+                for f in (gtf, olddb, newdb):
+                    if os.path.exists(f):
+                        os.remove(f)
+                open(gtf, "w").write("x"); os.utime(gtf, (2000, 2000))
+                conv = {}
+                if recorded is not None:
+                    open(olddb, "w").write("x"); os.utime(olddb, (3000, 3000))
+                    conv[gtf] = {"genedb": olddb, "gtf_mtime": 2000.0, "db_mtime": 3000.0, "complete_db": recorded}
+                json.dump(conv, open(cfg, "w"))
+                calls = []
+
+                def stub(gtf_, db_, complete, check=True):
+                    calls.append((gtf_, db_, complete))
+                    open(db_, "w").write("converted")
+                g2d.gtf2db = stub
+                args = types.SimpleNamespace(db_config_path=cfg, clean_start=clean, complete_genedb=requested, gtf_check=True)
+                try:
+                    _, used = g2d.convert_db(gtf, newdb, g2d.gtf2db, args)
+                    after = json.load(open(cfg)).get(gtf, {})
+                    reuse_ok = recorded is not None and recorded == requested and not clean
+                    ok = (used == olddb and not calls) if reuse_ok else (used == os.path.abspath(newdb) and len(calls) == 1 and calls[0][2] == requested
+                                                                         and after.get("complete_db") == requested)
+                    obs = "database used: %s, conversion ran: %s, recorded flag afterwards: %s" % (os.path.basename(used), bool(calls), after.get("complete_db"))
+                except Exception as e:
+                    ok, obs = False, "exception %r" % e
+                if ok:
+                    dis += 1
+                elif len(viol) < 5:
+                    viol.append({"obligation": "C12.cache_lookup.convert_db", "inputs": {"recorded_complete_db": recorded, "requested_complete_genedb": requested, "clean_start": clean},
+                                 "observed": obs, "required": "a cached database is reused exactly when it was made with the same --complete_genedb setting and --clean_start is off"})
+        finally:
+            g2d.gtf2db = real_gtf2db
     finally:
         shutil.rmtree(d, ignore_errors=True)
-    return {"obligations": obl, "discharged": dis, "violations": viol, "cases": obl, "exhaustive": True, "bound": "2^7 observable situations",
+    return {"obligations": obl, "discharged": dis, "violations": viol, "cases": obl, "exhaustive": True, "bound": "2^7 observable situations + 12 convert_db situations",
             "samples": [{"record": True, "all_match": True, "result": "the recorded database"}]}
 
 
